@@ -11,6 +11,14 @@ claimed = {
          "bounds per harness in evidence; ideal-AEAD model key, invertible zstd model, checksum hash model; archiver/packer threads, file system, metadata are outside the claim", "DESIGN 4/C01"),
  "C06": ("one step of the real rabin ChunkIter from an arbitrary valid iterator state (inductive: every chunk of every stream) is compared with a table-free polynomial-remainder reference; fixed-size chunker partition; accepted parameter triples never panic",
          "default polynomial, (64,64,72) parameters, <= 12 look-ahead bytes, <= 2 short reads per step; std read_to_end replaced by its contract model; longer look-ahead fills and other polynomials outside", "DESIGN 4/C06"),
+ "C04": ("framing layer only: every byte string written through the real DecryptBackend is key.encrypt_data output and its id is the hash of exactly those bytes; a decryption failure or a wrong recorded length is an error on every read path (no fallback to raw bytes); cryptographic strength is not decidable by a bounded solver",
+         "model keys (format-checking AEAD; harness-controlled MAC verdict); zstd/hash stubs; tamper detection with a content-sensitive model MAC is experimental (> 30 GB); AES/Poly1305/scrypt, keys, passwords outside", "DESIGN 4/C04, 11.3"),
+ "C08": ("accounting and size logic around the binrw (de)serialisation: HeaderEntry <-> IndexBlob mapping is lossless, header size / pack size formulas, BasicPacker offsets/lengths/duplicate skipping/take_data",
+         "binrw byte encoding stubbed; PackHeader::from_file, repair_index and the threaded pack writer outside", "DESIGN 4/C08, 11.3"),
+ "C09": ("the eight period predicates agree with the Gregorian / ISO-8601 specification for any two snapshots in 2014..2021; one step of KeepOptions::matches from any counter state keeps exactly the candidates with a non-zero counter and decrements counters correctly (inductive step of the counting rule)",
+         "jiff accessors stubbed by a symbolic civil table (jiff trusted); keep-within, tags, delete marks, apply()'s sort outside (experimental harnesses do not finish)", "DESIGN 4/C09, 11.3"),
+ "C11": ("Parent::process for a file node against a parent tree: Matched only for equal type/size/mtime/(ctime) with all blobs indexed, content taken from the parent; NotFound/NotMatched otherwise",
+         "Node::name stubbed (names without escapes); directories, several parents, pipeline outside", "DESIGN 4/C11, 11.3"),
  "C14": ("the blob read-range arithmetic every restore read goes through (coalescing, slice indices, plaintext length) is decided for all u32 values; path containment and the file-system side are outside (measured out of reach)",
          "blobs end below 4 GiB - 256 KiB; uncompressed entries >= 32 bytes; SmallVec member lists kept empty", "DESIGN 4/C14"),
  "C15": ("DryRunBackend never forwards a mutation; delete_snapshots and apply_config refuse on an append-only repository before touching storage; a refused config change leaves the config untouched",
@@ -32,8 +40,8 @@ not_applicable = {
  "C20": "LocalBackend/opendal are sequences of file-system calls; the property is about OS rename/listing semantics, not encodable",
 }
 pending = {}
-for pid in ["C04", "C05", "C08", "C09", "C11", "C12"]:
-    pending[pid] = "not yet claimed: harnesses under construction (see DESIGN.md section 10); will be claimed or declared not applicable with measurements"
+not_applicable["C05"] = "check_pack needs a symbolic decrypt outcome over symbolic pack bytes (merging the Ok/Err worlds of decrypt exhausts 30 GB, measured on the C04 tamper harness) plus binrw stubs; check_trees / check_packs_list are thread and B-tree code (Kani ICE / no result)"
+not_applicable["C12"] = "copy/merge/rewrite/repair kernels move Node/Tree values through String- and B-tree-heavy code (merge_nodes, RepairState) or live in packer threads; not encodable within the budget after C11 needed 3.5 min for a single node"
 checks = []
 for pid, (text, note, ref) in sorted(claimed.items()):
     checks.append({
